@@ -906,8 +906,14 @@ Stylesheet::addTemplate(
                     }
                     else if (data[i].getTargetType() == XPath::TargetData::eAny)
                     {
+                        // An id() or key() pattern can match any kind of node.
                         addToList(m_elementAnyPatternList, newMatchPat);
                         addToList(m_attributeAnyPatternList, newMatchPat);
+                        addToList(m_commentPatternList, newMatchPat);
+                        addToList(m_textPatternList, newMatchPat);
+                        addToList(m_piPatternList, newMatchPat);
+                        addToList(m_rootPatternList, newMatchPat);
+                        addToList(m_nodePatternList, newMatchPat);
                     }
                 }
                 else
